@@ -38,7 +38,7 @@ INFO = {
 }
 EXPECTED_PROBES = ("advance_throttled", "max_reached_while_throttled", "forced_by_max_interval",
                    "frame_shorter_than_previous", "multiline_format", "max_grown_by_overshoot",
-                   "finish_with_max_0", "styled_message", "backward_clock", "terminal_exactly_frame_wide")
+                   "finish_with_max_0", "styled_message", "backward_clock", "terminal_exactly_frame_wide", "quiet_section")
 
 _pb = None
 
@@ -307,6 +307,10 @@ def _run(sc, cfg, res, clock, log, columns=200):
                 s.write_line("below-%d second line" % i)
             below.append(s)
 
+    if kind == "quiet" and cfg.get("exact_columns"):
+        # a quiet *section* output (quiet mode is inherited from the parent output)
+        target = out.section()
+        res.probe("quiet_section")
     bar = _pb.ProgressBar(target, cfg["max"], cfg["min_interval"])
     if cfg["bar_width"] is not None:
         bar.set_bar_width(cfg["bar_width"])
